@@ -12,6 +12,7 @@
      respects the observed real-time order, returns the observed results, and ends in a state
      where nothing can move with exactly the observed calls still blocked. *)
 From Hop Require Import Base DChan.
+From Hop Require Export CorrC17Read.
 Open Scope N_scope.
 
 (* short constructor aliases for the generated files *)
